@@ -205,6 +205,7 @@ package connect
 //@   ensures |timeout| >= 1 && !isUnit(timeout[|timeout|-1]) ==> err != nil && !Is(err, errNoTimeout)               // label: unknown-unit-rejected
 //@   ensures |timeout| >= 1 && isUnit(timeout[|timeout|-1]) && !isNum10(timeout[:|timeout|-1]) ==> err != nil && !Is(err, errNoTimeout)   // label: non-decimal-rejected
 //@   ensures |timeout| >= 1 && isNum10(timeout[:|timeout|-1]) && val10(timeout[:|timeout|-1]) > 99999999 ==> err != nil && !Is(err, errNoTimeout)   // label: too-many-digits-rejected
+//@   ensures |timeout| > 9 ==> err != nil && !Is(err, errNoTimeout)                                                  // label: more-than-eight-digits-rejected-whatever-the-value
 
 //@ func grpcEncodeTimeout(timeout) (res, err)
 //@   tags C10
@@ -242,14 +243,16 @@ package connect
 //@   implements protocolHandler.SetTimeout
 //@   requires request != nil
 //@   ensures let h := hget(request.Header, "Grpc-Timeout") in gramT(h) && durT(h) <= 9223372036854775807 ==> err == nil && ctx == ctxWithTimeout(reqctx(request), durT(h))   // label: grammatical-honoured-exactly
-//@   ensures let h := hget(request.Header, "Grpc-Timeout") in h == "" || (gramT(h) && durT(h) > 9223372036854775807) ==> err == nil && ctx == reqctx(request) && cancel == nil   // label: absent-or-unrepresentable-is-unbounded
-//@   ensures let h := hget(request.Header, "Grpc-Timeout") in |h| >= 1 && (!isUnit(h[|h|-1]) || !isNum10(h[:|h|-1]) || (isNum10(h[:|h|-1]) && val10(h[:|h|-1]) > 99999999)) ==> err != nil && codeOf(err) == 3 && coded(err)   // label: malformed-is-invalid-argument
+//@   ensures let h := hget(request.Header, "Grpc-Timeout") in (h == "" && len(hvals(request.Header, "Grpc-Timeout")) == 0) || (gramT(h) && durT(h) > 9223372036854775807) ==> err == nil && ctx == reqctx(request) && cancel == nil   // label: absent-or-unrepresentable-is-unbounded
+//@   ensures hget(request.Header, "Grpc-Timeout") == "" && len(hvals(request.Header, "Grpc-Timeout")) > 0 ==> err != nil && codeOf(err) == 3 && coded(err)   // label: present-but-empty-is-invalid-argument
+//@   ensures let h := hget(request.Header, "Grpc-Timeout") in |h| >= 1 && (!isUnit(h[|h|-1]) || !isNum10(h[:|h|-1]) || |h| > 9 || (isNum10(h[:|h|-1]) && val10(h[:|h|-1]) > 99999999)) ==> err != nil && codeOf(err) == 3 && coded(err)   // label: malformed-is-invalid-argument
 
 //@ func (*connectHandler).SetTimeout(h, request) (ctx, cancel, err)
 //@   tags C10, C07, C15
 //@   implements protocolHandler.SetTimeout
 //@   requires request != nil
-//@   ensures let v := hget(request.Header, "Connect-Timeout-Ms") in v == "" ==> err == nil && ctx == reqctx(request) && cancel == nil    // label: absent-is-unbounded
+//@   ensures hget(request.Header, "Connect-Timeout-Ms") == "" && len(hvals(request.Header, "Connect-Timeout-Ms")) == 0 ==> err == nil && ctx == reqctx(request) && cancel == nil    // label: absent-is-unbounded
+//@   ensures hget(request.Header, "Connect-Timeout-Ms") == "" && len(hvals(request.Header, "Connect-Timeout-Ms")) > 0 ==> err != nil && coded(err) && codeOf(err) == 3   // label: present-but-empty-is-invalid-argument
 //@   ensures let v := hget(request.Header, "Connect-Timeout-Ms") in isNum10(v) && |v| <= 10 ==> err == nil && ctx == ctxWithTimeout(reqctx(request), val10(v) * 1000000)   // label: grammatical-honoured-exactly
 //@   ensures let v := hget(request.Header, "Connect-Timeout-Ms") in |v| > 10 || (v != "" && !isNum10(v)) ==> err != nil && coded(err) && codeOf(err) == 3   // label: malformed-is-invalid-argument
 
@@ -342,7 +345,7 @@ package connect
 //@   ensures res != nil && res != asErr(termerr(r.reader)) ==> res.code != 0                                   // label: own-errors-have-nonzero-code   // tags: C06
 //@   ensures res != nil && coded(termerr(r.reader)) && |old(rest(r.reader))| < 5 + (if |old(rest(r.reader))| >= 5 then declared(old(rest(r.reader))) else 0) && !(|old(rest(r.reader))| >= 5 && r.readMaxBytes > 0 && declared(old(rest(r.reader))) > r.readMaxBytes) && !Is(termerr(r.reader), io.EOF) ==> res == asErr(termerr(r.reader))   // label: coded-transport-error-passes-through   // tags: C15
 //@   ensures let S := old(rest(r.reader)) in res != nil && coded(termerr(r.reader)) && !Is(termerr(r.reader), io.EOF) && |S| >= 5 && r.readMaxBytes > 0 && declared(S) > r.readMaxBytes && |S| < 5 + declared(S) ==> res == asErr(termerr(r.reader))   // label: coded-transport-error-passes-through-the-discard-of-an-oversized-message   // tags: C15
-//@   assert@call((*bytes.Buffer).Grow#1): r.readMaxBytes <= 0 || size <= r.readMaxBytes                        // label: buffer-growth-within-limit   // tags: C09
+//@   assert@call((*bytes.Buffer).Grow): (r.readMaxBytes <= 0 || size <= r.readMaxBytes) && arg1 <= size && arg1 <= 4194304   // label: buffer-reserved-up-front-within-the-limit-and-never-more-than-4-MiB-on-the-prefix's-word   // tags: C09, C06, C07
 //@   loop remaining:
 //@     invariant 0 <= remaining && remaining <= size && size == declared(old(rest(r.reader))) && |old(rest(r.reader))| >= 5
 //@     invariant view(env.Data) == old(view(env.Data)) ++ old(rest(r.reader))[5:5+size-remaining]
@@ -1353,15 +1356,15 @@ package connect
 //@   ensures !old(u.alreadyRead) && res == nil && u.readMaxBytes > 0 ==> |old(rest(u.reader))| <= u.readMaxBytes && old(termerr(u.reader)) == io.EOF   // label: accepted-body-is-within-the-limit-and-complete   // tags: C09, C04
 //@   ensures !old(u.alreadyRead) && coded(termerr(u.reader)) && !Is(termerr(u.reader), io.EOF) ==> res == asErr(termerr(u.reader))   // label: coded-transport-error-passes-through-also-while-draining-an-oversized-body   // tags: C15
 //@   ensures res != nil && (res.code == 1 || res.code == 4) ==> coded(termerr(u.reader)) || Is(termerr(u.reader), context.Canceled) || Is(termerr(u.reader), context.DeadlineExceeded)   // label: canceled-and-deadline-exceeded-only-come-from-the-transport   // tags: C06, C15
-//@   ensures !old(u.alreadyRead) && !coded(termerr(u.reader)) && Is(termerr(u.reader), context.Canceled) && (u.readMaxBytes == 0 || |old(rest(u.reader))| <= u.readMaxBytes) ==> res != nil && codeOf(res) == 1   // label: a-read-cut-short-by-cancellation-is-canceled   // tags: C15
-//@   ensures !old(u.alreadyRead) && !coded(termerr(u.reader)) && !Is(termerr(u.reader), context.Canceled) && Is(termerr(u.reader), context.DeadlineExceeded) && (u.readMaxBytes == 0 || |old(rest(u.reader))| <= u.readMaxBytes) ==> res != nil && codeOf(res) == 4   // label: a-read-cut-short-by-expiry-is-deadline-exceeded   // tags: C15
+//@   ensures !old(u.alreadyRead) && !coded(termerr(u.reader)) && Is(termerr(u.reader), context.Canceled) ==> res != nil && codeOf(res) == 1   // label: a-read-cut-short-by-cancellation-is-canceled   // tags: C15
+//@   ensures !old(u.alreadyRead) && !coded(termerr(u.reader)) && !Is(termerr(u.reader), context.Canceled) && Is(termerr(u.reader), context.DeadlineExceeded) ==> res != nil && codeOf(res) == 4   // label: a-read-cut-short-by-expiry-is-deadline-exceeded   // tags: C15
 
 //@ constfield connectUnaryClientConn.responseHeader, connectUnaryClientConn.responseTrailer, connectUnaryClientConn.compressionPools, connectUnaryClientConn.bufferPool, connectUnaryClientConn.duplexCall
 //@ func (*connectUnaryClientConn).validateResponse(cc, response) res
 //@   tags C05, C06, C08, C09, C11, C15
 //@   requires cc != nil && response != nil && cc.responseHeader != nil && cc.responseTrailer != nil && cc.compressionPools != nil
 //@   requires cc.responseHeader != response.Header && cc.responseTrailer != response.Header && cc.responseHeader != cc.responseTrailer
-//@   requires response.Body != nil && !pooled(response.Body) && !typeis(response.Body, "*bytes.Buffer") && !typeis(response.Body, "*io.LimitedReader") && cc.bufferPool != nil
+//@   requires response.Body != nil && !pooled(response.Body) && !typeis(response.Body, "*bytes.Buffer") && !typeis(response.Body, "*io.LimitedReader") && cc.bufferPool != nil && cc.unmarshaler.readMaxBytes >= 0
 //@   use trailer_key_split
 //@   assigns everything
 //@   ensures res != nil ==> asErr(res) == res && res.code != 0                                          // label: never-the-zero-code
@@ -1370,7 +1373,7 @@ package connect
 //@   ensures old(response.StatusCode) != 200 && called("(*connectUnaryUnmarshaler).UnmarshalFunc", 1) && !coded(termerr(response.Body)) && !Is(termerr(response.Body), context.Canceled) && Is(termerr(response.Body), context.DeadlineExceeded) ==> codeOf(res) == 4   // label: expiry-while-reading-the-error-body-is-deadline-exceeded   // tags: C15
 //@   ensures old(response.StatusCode) != 200 && !(called("(*connectUnaryUnmarshaler).UnmarshalFunc", 1) && callres("(*connectUnaryUnmarshaler).UnmarshalFunc", 1) == nil) && !coded(termerr(response.Body)) && !Is(termerr(response.Body), context.Canceled) && !Is(termerr(response.Body), context.DeadlineExceeded) ==> res.code == connectHTTPCode(old(response.StatusCode))   // label: without-a-valid-wire-error-the-code-comes-from-the-http-status
 //@   assert@call(readOnlyCompressionPools.Get#1): arg1 == hget(response.Header, "Content-Encoding")   // label: decoder-chosen-from-the-content-encoding-header   // tags: C05, C08
-//@   assert@call((*connectUnaryUnmarshaler).UnmarshalFunc#1): arg0.reader == response.Body && arg0.bufferPool == cc.bufferPool && arg0.compressionPool == callres("readOnlyCompressionPools.Get", 1) && arg0.readMaxBytes == 0 && !arg0.alreadyRead   // label: error-body-is-read-with-the-response's-encoding   // tags: C05, C06, C08
+//@   assert@call((*connectUnaryUnmarshaler).UnmarshalFunc#1): arg0.reader == response.Body && arg0.bufferPool == cc.bufferPool && arg0.compressionPool == callres("readOnlyCompressionPools.Get", 1) && arg0.readMaxBytes == cc.unmarshaler.readMaxBytes && !arg0.alreadyRead   // label: error-body-is-read-with-the-response's-encoding-and-under-the-client's-read-limit   // tags: C05, C06, C08, C09
 //@   assert@call((http.Header).Get#1): forall k seq :: {mapval(response.Header, k)} mapdom(response.Header, k) ==> (if isTrailerKey(k) then mapdom(cc.responseTrailer, k[8:]) && mapval(cc.responseTrailer, k[8:]) == mapval(response.Header, k) else mapdom(cc.responseHeader, k) && mapval(cc.responseHeader, k) == mapval(response.Header, k))   // label: headers-and-prefixed-trailers-are-split-with-values-intact   // tags: C11
 //@   loop 1:
 //@     invariant forall q seq :: {iterated(q)} iterated(q) ==> mapdom(response.Header, q)
@@ -1419,7 +1422,7 @@ package connect
 //@   tags C05, C07, C08, C09, C01
 //@   implements protocolHandler.NewConn
 //@   requires h != nil && responseWriter != nil && request != nil && h.protocolHandlerParams.CompressionPools != nil && h.protocolHandlerParams.Codecs != nil
-//@   assert@call(negotiateCompression#1): arg0 == h.protocolHandlerParams.CompressionPools && (h.protocolHandlerParams.Spec.StreamType == 0 ==> arg1 == hget(request.Header, "Content-Encoding") && arg2 == hget(request.Header, "Accept-Encoding")) && (h.protocolHandlerParams.Spec.StreamType != 0 ==> arg1 == hget(request.Header, "Connect-Content-Encoding") && arg2 == hget(request.Header, "Connect-Accept-Encoding"))   // label: negotiation-reads-the-request-encoding-and-the-accept-list-from-their-headers   // tags: C08, C07
+//@   assert@call(negotiateCompression#1): arg0 == h.protocolHandlerParams.CompressionPools && (h.protocolHandlerParams.Spec.StreamType == 0 ==> arg1 == hget(request.Header, "Content-Encoding") && arg2 == joined(hvals(request.Header, "Accept-Encoding"), ",")) && (h.protocolHandlerParams.Spec.StreamType != 0 ==> arg1 == hget(request.Header, "Connect-Content-Encoding") && arg2 == joined(hvals(request.Header, "Connect-Accept-Encoding"), ","))   // label: negotiation-reads-the-request-encoding-and-the-accept-list-from-their-headers   // tags: C08, C07
 //@   assigns everything
 //@   ensures callres("negotiateCompression", 1, 2) != nil ==> !ok && called("handlerConnCloser.Close", 1)                 // label: failed-negotiation-closes-the-conn-with-the-error   // tags: C07, C08
 //@   ensures callres("negotiateCompression", 1, 2) == nil ==> ok && conn != nil                                            // label: successful-negotiation-yields-a-conn
@@ -1432,7 +1435,7 @@ package connect
 //@   tags C05, C07, C08, C09, C01
 //@   implements protocolHandler.NewConn
 //@   requires g != nil && responseWriter != nil && request != nil && rwstatus(responseWriter) == 0 && g.protocolHandlerParams.CompressionPools != nil && g.protocolHandlerParams.Codecs != nil
-//@   assert@call(negotiateCompression#1): arg0 == g.protocolHandlerParams.CompressionPools && arg1 == hget(request.Header, "Grpc-Encoding") && arg2 == hget(request.Header, "Grpc-Accept-Encoding")   // label: negotiation-reads-the-request-encoding-and-the-accept-list-from-their-headers   // tags: C08, C07
+//@   assert@call(negotiateCompression#1): arg0 == g.protocolHandlerParams.CompressionPools && arg1 == hget(request.Header, "Grpc-Encoding") && arg2 == joined(hvals(request.Header, "Grpc-Accept-Encoding"), ",")   // label: negotiation-reads-the-request-encoding-and-the-accept-list-from-their-headers   // tags: C08, C07
 //@   assigns everything
 //@   ensures old(!g.web && request.ProtoMajor == 1 && request.ProtoMinor == 0) ==> !ok && rwstatus(responseWriter) == 505 && !called("negotiateCompression", 1)   // label: grpc-over-http-1.0-(no-trailers,-so-no-status)-is-refused-with-505   // tags: C07
 //@   ensures called("negotiateCompression", 1) && callres("negotiateCompression", 1, 2) != nil ==> !ok && called("handlerConnCloser.Close", 1)                 // label: failed-negotiation-closes-the-conn-with-the-error   // tags: C07, C08
@@ -1630,7 +1633,7 @@ package connect
 //@   assigns rest(reader)
 //@   ensures |old(rest(reader))| <= 4194304 ==> rest(reader) == []
 //@   ensures |old(rest(reader))| > 4194304 ==> rest(reader) == old(rest(reader))[4194304:]
-//@   doc: "io.Copy(io.Discard, &io.LimitedReader{R: reader, N: discardLimit}): reads up to 4 MiB and throws them away (body: stdlib plumbing, trusted)"
+//@   doc: "io.Copy(io.Discard, &io.LimitedReader{R: reader, N: discardLimit}): reads up to 4 MiB and throws them away; when exactly the limit was consumed, one more one-byte read lets a body that has ended report io.EOF (body: stdlib plumbing, trusted; the model identifies 'every byte consumed' with 'end of body seen', so the difference that probe makes - defect 38 - lies below its resolution)"
 //@ func (*grpcClient).NewConn$2(u, call) res
 //@   tags C03, C04, C06
 //@   requires call != nil
@@ -2670,19 +2673,23 @@ package connect
 //@   tags C01, C07, C04
 //@   requires hc != nil && hc.unmarshaler.envelopeReader.reader != nil && !pooled(hc.unmarshaler.envelopeReader.reader) && termerr(hc.unmarshaler.envelopeReader.reader) != errSpecialEnvelope && hc.unmarshaler.envelopeReader.bufferPool != nil && hc.unmarshaler.envelopeReader.codec != nil
 //@   assigns everything
-//@   ensures (err == nil) == (callres("(*connectStreamingUnmarshaler).Unmarshal", 1) == nil)   // label: a-message-iff-the-unmarshaler-produced-one
-//@   ensures err != nil && !Is(callres("(*connectStreamingUnmarshaler).Unmarshal", 1), errSpecialEnvelope) ==> err == callres("(*connectStreamingUnmarshaler).Unmarshal", 1)   // label: the-unmarshaler's-error-is-returned
-//@   ensures err != nil && Is(err, io.EOF) && termerr(hc.unmarshaler.envelopeReader.reader) == io.EOF ==> |old(rest(hc.unmarshaler.envelopeReader.reader))| == 0   // label: the-handler-sees-a-clean-end-only-at-the-clean-end-of-the-request-body   // tags: C04, C07
-//@   ensures err != nil ==> coded(err)                                                                   // label: errors-are-coded
+//@   ensures old(hc.receiveErr) != nil ==> err == old(hc.receiveErr) && !called("(*connectStreamingUnmarshaler).Unmarshal", 1) && hc.receiveErr == old(hc.receiveErr)   // label: after-the-first-failure-(or-the-end-of-the-request)-nothing-more-is-read-and-the-same-error-is-returned   // tags: C04, C07
+//@   ensures old(hc.receiveErr) == nil ==> (err == nil) == (callres("(*connectStreamingUnmarshaler).Unmarshal", 1) == nil)   // label: a-message-iff-the-unmarshaler-produced-one
+//@   ensures old(hc.receiveErr) == nil && err != nil && !Is(callres("(*connectStreamingUnmarshaler).Unmarshal", 1), errSpecialEnvelope) ==> err == callres("(*connectStreamingUnmarshaler).Unmarshal", 1)   // label: the-unmarshaler's-error-is-returned
+//@   ensures old(hc.receiveErr) == nil && err != nil && Is(err, io.EOF) && termerr(hc.unmarshaler.envelopeReader.reader) == io.EOF ==> |old(rest(hc.unmarshaler.envelopeReader.reader))| == 0   // label: the-handler-sees-a-clean-end-only-at-the-clean-end-of-the-request-body   // tags: C04, C07
+//@   ensures err != nil ==> hc.receiveErr == err   // label: the-first-error-is-latched   // tags: C04
+//@   ensures old(hc.receiveErr) == nil && err != nil ==> coded(err)                                                                   // label: errors-are-coded
 //@   assert@call((*connectStreamingUnmarshaler).Unmarshal#1): arg1 == msg
 //@ func (*grpcHandlerConn).Receive(hc, msg) err
 //@   tags C01, C07, C04
 //@   requires hc != nil && hc.unmarshaler.envelopeReader.reader != nil && !pooled(hc.unmarshaler.envelopeReader.reader) && termerr(hc.unmarshaler.envelopeReader.reader) != errSpecialEnvelope && hc.unmarshaler.envelopeReader.bufferPool != nil && hc.unmarshaler.envelopeReader.codec != nil
 //@   assigns everything
-//@   ensures (err == nil) == (callres("(*grpcUnmarshaler).Unmarshal", 1) == nil)   // label: a-message-iff-the-unmarshaler-produced-one
-//@   ensures err != nil && !Is(callres("(*grpcUnmarshaler).Unmarshal", 1), errSpecialEnvelope) ==> err == callres("(*grpcUnmarshaler).Unmarshal", 1)   // label: the-unmarshaler's-error-is-returned
-//@   ensures err != nil && Is(err, io.EOF) && termerr(hc.unmarshaler.envelopeReader.reader) == io.EOF ==> |old(rest(hc.unmarshaler.envelopeReader.reader))| == 0   // label: the-handler-sees-a-clean-end-only-at-the-clean-end-of-the-request-body   // tags: C04, C07
-//@   ensures err != nil ==> coded(err)                                                                   // label: errors-are-coded
+//@   ensures old(hc.receiveErr) != nil ==> err == old(hc.receiveErr) && !called("(*grpcUnmarshaler).Unmarshal", 1) && hc.receiveErr == old(hc.receiveErr)   // label: after-the-first-failure-(or-the-end-of-the-request)-nothing-more-is-read-and-the-same-error-is-returned   // tags: C04, C07
+//@   ensures old(hc.receiveErr) == nil ==> (err == nil) == (callres("(*grpcUnmarshaler).Unmarshal", 1) == nil)   // label: a-message-iff-the-unmarshaler-produced-one
+//@   ensures old(hc.receiveErr) == nil && err != nil && !Is(callres("(*grpcUnmarshaler).Unmarshal", 1), errSpecialEnvelope) ==> err == callres("(*grpcUnmarshaler).Unmarshal", 1)   // label: the-unmarshaler's-error-is-returned
+//@   ensures old(hc.receiveErr) == nil && err != nil && Is(err, io.EOF) && termerr(hc.unmarshaler.envelopeReader.reader) == io.EOF ==> |old(rest(hc.unmarshaler.envelopeReader.reader))| == 0   // label: the-handler-sees-a-clean-end-only-at-the-clean-end-of-the-request-body   // tags: C04, C07
+//@   ensures err != nil ==> hc.receiveErr == err   // label: the-first-error-is-latched   // tags: C04
+//@   ensures old(hc.receiveErr) == nil && err != nil ==> coded(err)                                                                   // label: errors-are-coded
 //@   assert@call((*grpcUnmarshaler).Unmarshal#1): arg1 == msg
 //@ func (*connectUnaryClientConn).Receive(cc, msg) err
 //@   tags C01, C06
